@@ -184,8 +184,12 @@ impl ExecutionOptions {
         }
 
         // Round up the expected number of cycles to the next power of two. If it is smaller than
-        // MIN_TRACE_LEN -- pad expected number to it.
-        let expected_cycles = expected_cycles.next_power_of_two().max(MIN_TRACE_LEN as u32);
+        // MIN_TRACE_LEN -- pad expected number to it. The next power of two of a value above 2^31
+        // does not fit into a u32: such a hint is capped at 2^31.
+        let expected_cycles = expected_cycles
+            .checked_next_power_of_two()
+            .unwrap_or(1 << 31)
+            .max(MIN_TRACE_LEN as u32);
 
         Ok(ExecutionOptions {
             max_cycles,
